@@ -131,6 +131,17 @@ Proof.
   - apply Permutation_length_1_inv in P. subst. reflexivity.
 Qed.
 
+Lemma helpers_as_coded : forall (b : bool) l1 l2,
+  Permutation l1 l2 -> item_keys_unique l1 -> (b = true \/ length l1 <= 1) ->
+  compile_helpers_gen b l1 = compile_helpers_gen b l2.
+Proof.
+  intros b l1 l2 P U [->|L].
+  - simpl. rewrite (sort_items_perm l1 l2); auto.
+  - destruct b; simpl.
+    + rewrite (sort_items_perm l1 l2); auto.
+    + apply helpers_partial; assumption.
+Qed.
+
 Example helpers_partial_hyps_satisfiable : Permutation [helper_div] [helper_div] /\ length [helper_div] <= 1.
 Proof. split; auto. Qed.
 
